@@ -514,37 +514,37 @@ Proof. repeat split. Qed.
 
 (* ---------------------------------------------------------------- macros *)
 Section MacroProofs.
-  Variable eval_in : scope -> value -> option value.
+  Variable eval_in : (Z -> option macro) -> scope -> value -> option value.
   Variable gctx : Type.
   Variable generate : gctx -> value -> option (list Z).
   Variable other_call : gctx -> Z -> list value -> option (list Z).
   (* gen.Generate of a symbol is EnvToStackInstr: the lexical lookup *)
-  Hypothesis eval_sym : forall sc s, eval_in sc (VSym s) = lookup s sc.
+  Hypothesis eval_sym : forall mt sc s, eval_in mt sc (VSym s) = lookup s sc.
 
-  Definition macro_rho (dup : cstate) (m : macro) (args : list value) : value -> option value :=
-    eval_in (combine (m_params m) args ++ global_of dup).
+  Definition macro_rho (mt : Z -> option macro) (dup : cstate) (m : macro) (args : list value) : value -> option value :=
+    eval_in mt (combine (m_params m) args ++ global_of dup).
 
-  Theorem expansion_is_substitution : forall dup m args,
+  Theorem expansion_is_substitution : forall mt dup m args,
       length args = length (m_params m) ->
       wf (m_body m) = true -> is_splice (m_body m) = false ->
-      hshort (macro_rho dup m args) (m_body m) = true ->
-      expand_in eval_in dup m args =
-      match subst (macro_rho dup m args) (m_body m) with Ok v => Some v | Err => None end.
+      hshort (macro_rho mt dup m args) (m_body m) = true ->
+      expand_in eval_in mt dup m args =
+      match subst (macro_rho mt dup m args) (m_body m) with Ok v => Some v | Err => None end.
   Proof.
-    intros dup m args Hl Hwf Hs Hsh. unfold expand_in. rewrite Hl, Nat.eqb_refl.
-    fold (macro_rho dup m args). rewrite template_subst_short by assumption.
+    intros mt dup m args Hl Hwf Hs Hsh. unfold expand_in. rewrite Hl, Nat.eqb_refl.
+    fold (macro_rho mt dup m args). rewrite template_subst_short by assumption.
     unfold expected. destruct (subst _ _); reflexivity.
   Qed.
 
   (* a parameter unquoted in the body stands for the UNEVALUATED argument form *)
-  Theorem param_is_argument_form : forall dup m args p a,
+  Theorem param_is_argument_form : forall mt dup m args p a,
       lookup p (combine (m_params m) args ++ global_of dup) = Some a ->
-      elems (macro_rho dup m args) (TUnq (VSym p)) = Ok [a].
+      elems (macro_rho mt dup m args) (TUnq (VSym p)) = Ok [a].
   Proof. intros. unfold macro_rho. simpl. rewrite eval_sym, H. reflexivity. Qed.
 
   Theorem macro_call_is_expansion : forall macros ctx st s args m e,
       macros s = Some m ->
-      expand_in eval_in (duplicate st) m args = Some e ->
+      expand_in eval_in macros (duplicate st) m args = Some e ->
       gen_call eval_in gctx generate other_call macros ctx st s args = (st, generate ctx e).
   Proof. intros. unfold gen_call. rewrite H, H0. reflexivity. Qed.
 
@@ -554,9 +554,9 @@ Section MacroProofs.
       macros s = Some m ->
       length args = length (m_params m) ->
       wf (m_body m) = true -> is_splice (m_body m) = false ->
-      hshort (macro_rho (duplicate st) m args) (m_body m) = true ->
+      hshort (macro_rho macros (duplicate st) m args) (m_body m) = true ->
       gen_call eval_in gctx generate other_call macros ctx st s args =
-      (st, match subst (macro_rho (duplicate st) m args) (m_body m) with
+      (st, match subst (macro_rho macros (duplicate st) m args) (m_body m) with
            | Ok e => generate ctx e
            | Err => None
            end).
